@@ -1,1 +1,3 @@
 pub use h_core::util;
+pub mod chain;
+pub mod wallet;
